@@ -83,7 +83,7 @@ impl Ctx {
     }
     pub fn eval(&self, class: impl Into<String>) { self.evaluations.fetch_add(1, Ordering::Relaxed); self.class(class); }
     pub fn note(&self, s: impl Into<String>) { self.notes.lock().unwrap().push(s.into()); }
-    pub fn engine_error(&self, s: impl Into<String>) { let s = s.into(); eprintln!("ENGINE-ERROR {s}"); self.engine_errors.lock().unwrap().push(s); }
+    pub fn engine_error(&self, s: impl Into<String>) { let s = s.into(); let mut g = self.engine_errors.lock().unwrap(); if g.len() < 20 { eprintln!("ENGINE-ERROR {s}"); g.push(s); } }
     pub fn set_extra(&self, k: &str, v: Value) { self.extra.lock().unwrap().insert(k.into(), v); }
     pub fn guard_check(&self, name: &str, ok: bool, detail: impl Into<String>) {
         let detail = detail.into();
